@@ -1,6 +1,7 @@
 #ifndef HMAC_CPP_SECURE_BUFFER_HPP
 #define HMAC_CPP_SECURE_BUFFER_HPP
 
+#include <algorithm>
 #include <atomic>
 #include <cstddef>
 #include <cstdint>
@@ -150,7 +151,16 @@ struct secure_buffer {
         if (n < old_sz) {
             secure_zero(old_ptr + n, (old_sz - n) * sizeof(T));
         }
-        buf.resize(n);
+        if (n > buf.capacity()) {
+            // Growing reallocates: move into fresh storage ourselves so the old
+            // block is wiped before it goes back to the allocator.
+            std::vector<T> grown(n);
+            std::copy(buf.begin(), buf.end(), grown.begin());
+            secure_zero(old_ptr, old_sz * sizeof(T));
+            buf.swap(grown);
+        } else {
+            buf.resize(n);
+        }
         if (LockOnAlloc && old_ptr != buf.data()) {
             if (locked_) {
                 unlock_pages(old_ptr, old_sz * sizeof(T));
